@@ -180,7 +180,10 @@ def judge_history(specs):
         # frames of formats the property does not list (DF18, DF16, DF0) are distractors: whether the reader reports them is
         # not constrained (a reader that admits valid DF18 squitters still has the property), so they are removed from
         # the answer before it is compared; a DF17 with a bad checksum is never acceptable (checked above)
-        if exp is None:
+        if exp is None or any(n in BAD17 for n in spec["frames"]):
+            # a buffer that contains a corrupted squitter (or distorted pulses) is outside the premise of the 'returns
+            # exactly those frames' clause - a reader that repairs the frame and hands over the corrected, checksum-zero
+            # squitter has the property just as one that drops it - so only the unconditional clause was judged (above)
             continue
         free = {FRAMES[n].upper() for n in spec["frames"] if n in ("DF18", "DF16", "DF0")}
         if free:
